@@ -382,10 +382,14 @@ def r_keys(model, rep):
     rets = [ev for ev in gcx.events if ev.kind == "return"]
     pu = ("call", ("attr", ("param", gcx.selfname), "parse_uid"), (("param", "uid"),), ())
 
-    def opt(k):
-        return ("ifexp", ("sub", pu, ("const", k)), ("binop", "%", ("const", ":%s"), ("sub", pu, ("const", k))), ("const", ""))
-    want = ("tuple", (("binop", "+", ("binop", "+", ("binop", "%", ("const", "%(module_name)s:%(stream)s"), pu), opt("version")), opt("context")), pu))
-    ok = len(rets) == 1 and rets[0].value == want
+    part = lambda k: ("sub", pu, ("const", k))
+    ok = True
+    for ver in (False, True):
+        for ctx in (False, True):
+            vals = facts.value_under(gcx, facts.atoms_decider({part("version"): ver, part("context"): ctx}))
+            want = ("tuple", (T.fmt(*((part("module_name"), ":", part("stream")) + ((":", part("version")) if ver else ())
+                                       + ((":", part("context")) if ctx else ()))), pu))
+            ok = ok and vals == [want]
     rep.ob("R-KEYS", "Modules._check_uid:canonical-format", ok, site=gcx.site(g.node),
            msg="" if ok else "canonical UID is not NAME:STREAM[:VERSION][:CONTEXT] of the parsed parts")
     # parse_uid: None version/context -> ''
@@ -445,7 +449,7 @@ def r_relative_to(model, rep):
     f = model.function("extra_files", "_relative_to")
     cx = facts.fctx(model, f)
     path, root = ("param", cx.params[0]), ("param", cx.params[1])
-    prefix = ("binop", "+", ("call", ("attr", root, "rstrip"), (("const", "/"),), ()), ("const", "/"))
+    prefix = T.fmt(("call", ("attr", root, "rstrip"), (("const", "/"),), ()), "/")
     rets = [ev for ev in cx.events if ev.kind == "return"]
     sw = ("call", ("attr", path, "startswith"), (prefix,), ())
     cut = [r for r in rets if r.value == ("sub", path, ("slice", ("call", ("global", "len"), (prefix,), ()), None, None))
